@@ -613,6 +613,9 @@ func checkSeq(c seqCase) (msg, discard string) {
 }
 
 var seqQueries = []string{
+	// two calls in one program whose pattern + flags strings coincide
+	". as $i | .s | [[scan($i.re)], test($i.re + \"g\"), [match($i.re + \"g\"; \"g\") | .string]]", ". as $i | .s | [test($i.re; \"i\"), test($i.re + \"i\"), test($i.re; \"x\"), test($i.re + \"x\")]?",
+	". as $i | .s | (gsub($i.re; \"\") as $x | [$x, sub($i.re + \"g\"; \"\")])?", ". as $i | .s | [[splits($i.re)], test($i.re + \"g\"), [splits($i.re + \"g\")]]?", ". as $i | .s | [test($i.re + ($i.flags // \"\")), test($i.re; $i.flags)]?",
 	"test(.re; .flags)", "[match(.re; .flags)] | length", "sub(.re; \"x\"; .flags)", ".s | test(\"a.b\"; .flags)", ".s | [match(.re; .flags) | .string]", ".s | gsub(.re; \"-\"; .flags)?",
 	". as $i | .s | test($i.re; $i.flags)", ". as $i | .s | [splits($i.re; $i.flags)]", ". as $i | .s | capture($i.re; $i.flags)?", ". as $i | .s | [scan($i.re; $i.flags)]", ". as $i | try (.s | test($i.re; $i.flags)) catch \"error\"",
 	". as $i | .s | [test($i.re), test($i.re; $i.flags)]", ". as $i | .s | [test($i.re; $i.flags), test($i.re; null), test($i.re; \"g\")]", ". as $i | .s | sub($i.re; \"<\\(.)>\"; $i.flags)?",
@@ -648,6 +651,25 @@ func TestC05(t *testing.T) {
 			in := map[string]any{"s": subj, "re": re, "flags": flags}
 			if rapid.IntRange(0, 4).Draw(t, "other") == 0 {
 				in["re"] = rapid.SampledFrom([]string{"a.b", "b", "("}).Draw(t, "re2")
+			}
+			if i > 0 && rapid.IntRange(0, 3).Draw(t, "collide") == 0 {
+				// pattern and flags whose concatenation equals that of the input
+				// before (a.b + "i"  vs  a.bi + ""; x + "g" vs xg + null)
+				prev := c.Inputs[i-1].X.(map[string]any)
+				pf, _ := prev["flags"].(string)
+				switch rapid.IntRange(0, 2).Draw(t, "collidekind") {
+				case 0:
+					in["re"], in["flags"] = prev["re"].(string)+pf, ""
+				case 1:
+					in["re"], in["flags"] = prev["re"].(string)+pf+"g", nil
+				default:
+					if r := prev["re"].(string); len(r) > 1 {
+						in["re"], in["flags"] = r[:len(r)-1], r[len(r)-1:]+pf
+					}
+				}
+				if rapid.Bool().Draw(t, "subj") {
+					in["s"] = subj + in["re"].(string) + "I" + strings.ToUpper(subj)
+				}
 			}
 			c.Inputs = append(c.Inputs, univ.V{X: in})
 		}
